@@ -23,7 +23,9 @@ func spec(marker string, devs ...string) []byte {
 	for _, d := range devs {
 		ds = append(ds, fmt.Sprintf(`{"name":%q,"containerEdits":{"env":["SRC_%s=%s"]}}`, d, d, marker))
 	}
-	return []byte(fmt.Sprintf(`{"cdiVersion":"0.5.0","kind":%q,"containerEdits":{"env":["SPEC_%s=1"]},"devices":[%s]}`, Kind, marker, strings.Join(ds, ",")))
+	// annotations with prefixed keys (another prefix per file): loading or writing a Spec goes
+	// through the annotation validation helpers as well
+	return []byte(fmt.Sprintf(`{"cdiVersion":"0.6.0","kind":%q,"annotations":{"%s.example.com/note":"n","%s.example.com/other":"o","plain":"p"},"containerEdits":{"env":["SPEC_%s=1"]},"devices":[%s]}`, Kind, strings.ToLower(marker), strings.ToLower(marker), marker, strings.Join(ds, ",")))
 }
 
 // World: two directories; d1/multi.json switches atomically (one rename) between state A
@@ -189,7 +191,7 @@ func All() []Op {
 			return Result{Op: "Configure(auto)"}
 		}},
 		{"WriteSpec", false, func(w *World, c *cdi.Cache) Result {
-			raw := &specs.Spec{Version: "0.5.0", Kind: "other.org/k", Devices: []specs.Device{{Name: "w", ContainerEdits: specs.ContainerEdits{Env: []string{"W=1"}}}}}
+			raw := &specs.Spec{Version: "0.6.0", Kind: "other.org/k", Annotations: map[string]string{"written.example.org/by": "WriteSpec", "written.example.org/n": "1"}, Devices: []specs.Device{{Name: "w", ContainerEdits: specs.ContainerEdits{Env: []string{"W=1"}}}}}
 			err := c.WriteSpec(raw, "written")
 			return Result{Op: "WriteSpec", Obs: fmt.Sprint(err)}
 		}},
@@ -236,7 +238,7 @@ func All() []Op {
 
 // SpecB is the content of multi.json in state B, as a Spec to be written through the cache.
 func SpecB() *specs.Spec {
-	sp := &specs.Spec{Version: "0.5.0", Kind: Kind, ContainerEdits: specs.ContainerEdits{Env: []string{"SPEC_B=1"}}}
+	sp := &specs.Spec{Version: "0.6.0", Kind: Kind, Annotations: map[string]string{"b.example.com/note": "n", "b.example.com/other": "o"}, ContainerEdits: specs.ContainerEdits{Env: []string{"SPEC_B=1"}}}
 	for _, d := range []string{"b1", "b2", "b3"} {
 		sp.Devices = append(sp.Devices, specs.Device{Name: d, ContainerEdits: specs.ContainerEdits{Env: []string{"SRC_" + d + "=B"}}})
 	}
